@@ -45,7 +45,7 @@ class C03(Property):
         for i in range(nrand):
             ev = G.rand_tree_events(rng, rng.choice([6, 20, 60, 200]), toks=GN.TOKS_NAV + ["X100", "X101"], wide=rng.chance(1, 3))
             t = build_tree(ev)
-            prog = GN.random_program(rng, t, rng.choice([5, 20, 60]))
+            prog = GN.random_program(rng, t, rng.choice([5, 20, 60]), queries=False)   # offset/range queries are C13's
             res.append(("random", "N %s %s | %s" % ("pr"[i % 2], " ".join(ev), " ".join(prog))))
         return res
 
